@@ -16,10 +16,14 @@ import (
 func init() {
 	register(&Property{
 		ID:          "C01",
-		Explanation: "Structural necessary conditions of 'compiled programs behave like the reference toolchain' are decided: the compiler/prelude/natives boundary is closed (names, arities, properties, unshadowable host names), dispatches are total, compiler panics are contained, templates lex as JavaScript and do not glue operators, program assembly order, 32-bit sizes. NOT decided: that any emitted statement means what the Go construct means.",
+		Explanation: "Structural necessary conditions of 'compiled programs behave like the reference toolchain' are decided: the compiler/prelude/natives boundary is closed (names, arities, properties, unshadowable host names), dispatches are total, compiler panics are contained, templates lex as JavaScript and do not glue operators, program assembly order, 32-bit sizes, operands evaluated once; and, because C01 subsumes them, the sequential-semantics rules of C02 (suspension protocol, frames, flattening, escape analysis), C06 (coercions and operator dispatch), C07 (copy contexts, boxing, deep copy), C08 (run-time checks, defer/recover), C14 (bounds) and C15 (map operations) are evaluated here too. NOT decided: that any emitted statement means what the Go construct means.",
 		Assumptions: []string{"go/types and go/ast describe the compiler's own code faithfully", "acorn parses the prelude as Node would", "string constants of package compiler are the only way it produces JavaScript text"},
 		Rules: []RuleFunc{ruleL1, ruleL2, ruleL3, ruleL4, ruleL8, ruleL9, ruleTotal("C01.exh", 30, ""), ruleBuiltins, ruleRewrites,
-			ruleContain, ruleLex, ruleAdj, ruleAssembly, ruleSizes, ruleOnce},
+			ruleContain, ruleLex, ruleAdj, ruleAssembly, ruleSizes, ruleOnce,
+			// C01 is the umbrella property: the sequential-semantics rules of the specialised properties are
+			// necessary conditions of it as well
+			ruleC06Coerce, ruleC06Apply, ruleC06Dispatch, ruleC06Div0, ruleC07Contexts, ruleC07Box, ruleC07Deep,
+			ruleC08Checks, ruleC08Defer, ruleC08DynScope, ruleC02Protocol, ruleC02Frame, ruleC02Flatten, ruleC02Escape, ruleC14Bounds, ruleC15Ops},
 	})
 }
 
